@@ -155,6 +155,82 @@ def retrain_other_size(sx, m):
         _check_result(sx, shB, rewB, r2, logB, m, diff, shB.gamma, tag='second-')
 
 
+def observe_step(sx, m, cfg):
+    """ONE model update from an arbitrary reachable learner state (the inductive step behind 'the empirical model of a pair is
+    built from its FIRST m samples'): the learner's tables are set to a state in which every pair has been tried c(s,a) <= m
+    times (counts from a menu, reward sums / previous Q-values symbolic), one transition (s, a, r, s') with symbolic indices
+    is observed, and afterwards: a pair that already had m samples is unchanged in every table; otherwise exactly that pair's
+    count, reward sum and transition count grew by this sample; transition counts still sum to the pair's count; and when
+    the pair has just reached m the Q-values of known pairs satisfy the Bellman equation of the counted model within the
+    tolerance while all other pairs stay optimistic."""
+    sh = SHAPES[0]          # two states (0 ordinary, 1 absorbing), two actions
+    g = sh.gamma
+    from msdm.algorithms.rmax import RMAX
+    rew = _rewards(sx, sh)
+    diff = sx.const(F(1, 2))
+    opt = F(1) / (1 - g)
+    S, A = sh.S, sh.A
+    # counts per pair and how the counted transitions are spread over next states
+    CFG = [
+        {(0, 0): (m, [m, 0]), (0, 1): (0, [0, 0])},
+        {(0, 0): (m, [m - 1, 1]), (0, 1): (m - 1, [0, m - 1])},
+        {(0, 0): (m - 1, [m - 1, 0]), (0, 1): (m, [0, m])},
+        {(0, 0): (m, [0, m]), (0, 1): (m, [1, m - 1])},
+        {(0, 0): (0, [0, 0]), (0, 1): (0, [0, 0])},
+    ][cfg]
+    import numpy as rnp
+    sx.c.max_decisions = 300
+    with facade(sx):
+        mdp = build_mdp(sx, sh, rew)
+        lrn = RMAX(episodes=1, rmax=1, num_transition_samples=m, bellman_convergence_diff=diff, seed=1)
+        lrn._init_training(mdp)
+        cnt = {}
+        for (s, a), (c_, spread) in CFG.items():
+            if any(x < 0 for x in spread) or c_ < 0:
+                raise core.Infeasible()
+            cnt[(s, a)] = c_
+            lrn.s_a_counts[s, a] = c_
+            for ns, k in enumerate(spread):
+                lrn.transitions[s, a, ns] = k
+            lrn.rewards[s, a] = sx.real(f"Rsum_{s}_{a}", -c_, c_) if c_ else 0
+            if c_ >= m:
+                lrn.q_matrix[s, a] = sx.real(f"Qprev_{s}_{a}", -2, 2)       # whatever earlier sweeps left there
+        before = dict(counts=lrn.s_a_counts.copy(), trans=lrn.transitions.copy(), rews=lrn.rewards.copy(), q=lrn.q_matrix.copy())
+        a_ = int(sx.integer('a', 0, A - 1))
+        ns_ = int(sx.integer('ns', 0, S - 1))
+        r_ = sx.real('r', -1, 1)
+        with sx.must_not_raise('observe'):
+            lrn._observe(0, a_, r_, ns_, sx.const(g))
+        known_before = cnt[(0, a_)] >= m
+        for s in range(S):
+            for a in range(A):
+                same_pair = (s, a) == (0, a_)
+                grow = 1 if (same_pair and not known_before) else 0
+                sx.prove_eq(lrn.s_a_counts[s, a], before['counts'][s, a] + grow, f'count[{s},{a}]', tol=0)
+                sx.prove_eq(lrn.rewards[s, a], before['rews'][s, a] + (r_ if grow else 0), f'reward-sum[{s},{a}]', tol=0)
+                for ns in range(S):
+                    sx.prove_eq(lrn.transitions[s, a, ns], before['trans'][s, a, ns] + (1 if (grow and ns == ns_) else 0),
+                                f'transition-count{"-of-known-pair-frozen" if (same_pair and known_before) else ""}[{s},{a},{ns}]', tol=0)
+                sx.prove_eq(ssum(lrn.transitions[s, a, ns] for ns in range(S)), lrn.s_a_counts[s, a], f'transition-counts-sum-to-count[{s},{a}]', tol=0)
+        now_known = {(s, a) for s in range(S) for a in range(A) if bool(lrn.s_a_counts[s, a] >= m)}
+        replanned = (not known_before) and cnt[(0, a_)] + 1 == m
+        if not replanned:
+            for s in range(S):
+                for a in range(A):
+                    sx.prove_eq(lrn.q_matrix[s, a], before['q'][s, a], f'q-unchanged-without-replanning[{s},{a}]', tol=0)
+            return
+        q = {(s, a): lrn.q_matrix[s, a] for s in range(S) for a in range(A)}
+        vmax = {s: core.smax2(q[(s, 0)], q[(s, 1)]) for s in range(S)}
+        for (s, a), v in q.items():
+            if (s, a) not in now_known:
+                sx.prove_eq(v, opt, f'unknown-pair-stays-optimistic[{s},{a}]', tol=0)
+            else:
+                rhat = lrn.rewards[s, a] / m
+                want = rhat + sx.const(g) * ssum((lrn.transitions[s, a, ns] / m) * vmax[ns] for ns in range(S))
+                d = v - want
+                sx.prove((d < diff) & (-d < diff) if is_sym(d) else abs(d) < diff, f'bellman-residual-of-the-counted-model[{s},{a}]')
+
+
 def jobs(tier):
     quick = tier == 'quick'
     o = dict(timeout_ms=60000, budget_s=1500, max_paths=40000)
@@ -165,3 +241,6 @@ def jobs(tier):
                     continue
                 yield ('train', dict(shape=i, m=m, episodes=ep, L=L), dict(o, cost=5))
     yield ('retrain_other_size', dict(m=1), o)
+    for m in [1, 2, 3]:
+        for cfg in range(5):
+            yield ('observe_step', dict(m=m, cfg=cfg), o)
